@@ -43,7 +43,7 @@ var nonEmitting = map[string]bool{
 }
 
 // instruction-emitting methods of the real type, by reflection
-func emitMethods() []string {
+func emitMethodsAll() []string {
 	t := reflect.TypeOf(&asm.Emitter{})
 	var out []string
 	for i := 0; i < t.NumMethod(); i++ {
@@ -53,6 +53,27 @@ func emitMethods() []string {
 		}
 	}
 	sort.Strings(out)
+	return out
+}
+
+// the methods the generators draw from: those of the real type that Emitter.tla classifies (VERIF_EMIT_KNOWN, set by
+// the driver from the TLC-exported table); methods added to the API since are reported by the driver, not called blindly
+func emitMethods() []string {
+	all := emitMethodsAll()
+	known := os.Getenv("VERIF_EMIT_KNOWN")
+	if known == "" {
+		return all
+	}
+	ok := map[string]bool{}
+	for _, n := range strings.Split(known, ",") {
+		ok[n] = true
+	}
+	var out []string
+	for _, n := range all {
+		if ok[n] {
+			out = append(out, n)
+		}
+	}
 	return out
 }
 
@@ -658,7 +679,7 @@ func (x *emitExec) run_end() {
 func init() {
 	register("emit", func(args []string) error {
 		if len(args) >= 1 && args[0] == "methods" {
-			return json.NewEncoder(os.Stdout).Encode(emitMethods())
+			return json.NewEncoder(os.Stdout).Encode(emitMethodsAll())
 		}
 		if len(args) >= 3 && args[0] == "run" { // vh emit run <scenarios.ndjson> <out.ndjson>
 			in, err := os.Open(args[1])
